@@ -207,3 +207,22 @@ def _c14_even(params, inputs, observed):
         return False
     k = math.floor(1 / f)
     return len(observed['out']) == 2 * int((L / k) / 2) and abs(observed['new_dt'] - dt * k) <= 1e-12 * dt * k
+
+
+@predicate('c20_int_truncated_step_error')
+def _c20_int_trunc(params, inputs, observed):
+    """integer-dtype series and the library result is exactly the truncation toward zero of the correct errors (so
+    the only thing wrong is the integer output buffer)."""
+    import math
+    if params.get('kind') != 'i' or 'err' not in observed:
+        return False
+    n = params['n']
+    p = params['p']
+    v = [float(inputs['v[%d]' % i]) for i in range(n)]
+
+    def dev(xs):
+        m = sum(xs) / len(xs)
+        return sum(abs(x - m) ** p for x in xs)
+    want = [dev(v[:i + 1]) + dev(v[i + 1:]) for i in range(n - 1)] + [dev(v)]
+    got = observed['err']
+    return len(got) == n and all(abs(g - math.trunc(w + (1e-9 if w >= 0 else -1e-9))) < 1e-6 for g, w in zip(got, want))
